@@ -14,6 +14,18 @@ class Inconclusive(Exception):
     pass
 
 
+COMPONENT_PROPS = {
+    "users": {"C02", "C06", "C19"}, "users/modes": {"C11", "C19", "C12", "C15"}, "users/away": {"C10", "C19", "C15"},
+    "users/channels": {"C04", "C06", "C16", "C07"}, "users/invited": {"C09", "C07", "C15"},
+    "users/user": {"C01", "C02"}, "users/host": {"C01"}, "users/realname": {"C02"},
+    "chans": {"C16", "C04"}, "chans/members": {"C04", "C08", "C01", "C09", "C15"}, "chans/topic": {"C09", "C16"},
+    "chans/flags": {"C08", "C10", "C12", "C07", "C09", "C16"}, "chans/key": {"C08", "C07", "C16"},
+    "chans/limit": {"C08", "C07", "C16"}, "chans/ban": {"C08", "C07", "C10", "C14", "C16"},
+    "chans/exc": {"C08", "C07", "C10", "C14", "C16"}, "chans/invex": {"C08", "C07", "C14", "C16"},
+    "chans/preconf": {"C16"}, "whowas": {"C06", "C15"}, "max_users": {"C19"},
+}
+
+
 def render(cmd):
     """structured command -> wire line (canonical serialisation)"""
     v = cmd["verb"]
@@ -727,7 +739,9 @@ class World:
                 d = invariants.diff(self.model.canon(), invariants.canon(snap))
                 for path, a, b in d[:8]:
                     kind = "/".join(path.split("/")[1:2] + path.split("/")[3:4])
-                    self.violate("state:" + kind, exp.props, exp.shape,
+                    # a wrong state component concerns every property whose statement depends on it (the model
+                    # resynchronises afterwards, so downstream checks would never see the consequence)
+                    self.violate("state:" + kind, exp.props | COMPONENT_PROPS.get(kind, set()), exp.shape,
                                  "%s: model %r, server %r (after %r)"
                                  % (path, a, b, self.history[-1][1] if self.history else ""))
             if exp.verb != "NICK":
